@@ -655,6 +655,9 @@ type coldef struct {
 	BlockData BlockData
 	Column    wpg.Column
 	Notify    bool
+
+	// for an indexed input: its position among the log's topics
+	topic int
 }
 
 // Implements the [shovel.Integration] interface
@@ -728,6 +731,15 @@ func (ig *Integration) setCols() {
 		}
 		return wpg.Column{}
 	}
+	// topic 0 is the event signature; the k-th indexed input of the
+	// event is topic k whether or not the other inputs are selected
+	topics, ntopics := map[string]int{}, 0
+	for _, input := range ig.Event.Inputs {
+		if input.Indexed {
+			ntopics++
+			topics[input.Name] = ntopics
+		}
+	}
 	for _, input := range ig.Event.Selected() {
 		c := getCol(input.Column)
 		ig.Columns = append(ig.Columns, c.Name)
@@ -735,6 +747,7 @@ func (ig *Integration) setCols() {
 			Input:  input,
 			Column: c,
 			Notify: slices.Contains(ig.Notification.Columns, c.Name),
+			topic:  topics[input.Name],
 		})
 		ig.numSelected++
 	}
@@ -1030,18 +1043,17 @@ func (ig Integration) processLog(rows [][]any, lwc *logWithCtx, pgmut *sync.Mute
 			return nil, fmt.Errorf("scanning abi data: %w", err)
 		}
 		for i := 0; i < ig.resultCache.Len(); i++ {
-			ictr, actr := 1, 0
+			actr := 0
 			frs := filterResults{kind: ig.filterAGG}
 			row := make([]any, len(ig.coldefs))
 			for j, def := range ig.coldefs {
 				switch {
 				case def.Input.Indexed:
-					d := dbtype(def.Input.Type, lwc.l.Topics[ictr])
+					d := dbtype(def.Input.Type, lwc.l.Topics[def.topic])
 					if err := def.Input.Accept(lwc.ctx, pgmut, pg, d, &frs); err != nil {
 						return nil, fmt.Errorf("checking filter: %w", err)
 					}
 					row[j] = d
-					ictr++
 				case !def.BlockData.Empty():
 					var d any
 					switch {
@@ -1073,7 +1085,7 @@ func (ig Integration) processLog(rows [][]any, lwc *logWithCtx, pgmut *sync.Mute
 		for i, def := range ig.coldefs {
 			switch {
 			case def.Input.Indexed:
-				d := dbtype(def.Input.Type, lwc.l.Topics[1+i])
+				d := dbtype(def.Input.Type, lwc.l.Topics[def.topic])
 				if err := def.Input.Accept(lwc.ctx, pgmut, pg, d, &frs); err != nil {
 					return nil, fmt.Errorf("checking filter: %w", err)
 				}
